@@ -8,9 +8,14 @@
 //! `new <stall>`: stall = 1 makes the lanes' output channels smaller than any frame, so a write completes exactly when
 //! the harness reads the frame (the writer is away in between: queues build up); 0 = channels never fill.
 //! ops: cmd <c|s> <body> | sync <c|s> <r> | read <c|s>       out: h=<handler log since the last op> f=<frame read|->
+//!      readcmd <n>   read up to n records from the AD HOC COMMAND channel (capacity `new <stall> <cap>`; the agent's
+//!                    `command_buffer` / `CommandWriter` / `CommandSendComplete` path) with the real
+//!                    `CommandMessageDecoder`; out: h=- f=- a=<target>:<value>:<overwrite>,…
 //!
 //! Lifecycle: `on_command(v)` logs `cmd:v`; if `v % 7 == 5` it commands its own lane with `v + 1`; then it supplies
-//! `v % 4` items `10v+1 …` (logging `sup:x` before each).
+//! `v % 4` items `10v+1 …` (logging `sup:x` before each); then it sends `(v / 4) % 5` ad hoc commands (60 when
+//! `v % 11 == 0`) with `SendCommand::new`: the i-th goes to node `/t<(v+i)%3>` lane `in`, value `100v+i`,
+//! `overwrite_permitted = (v+i) % 2 == 0`.
 use std::collections::HashMap;
 use std::num::NonZeroUsize;
 use std::sync::{Arc, Mutex};
@@ -23,12 +28,14 @@ use svh::{parse_args, Mode, Rng, Trace};
 use swimos::agent::agent_model::AgentModel;
 use swimos::agent::{
     agent_lifecycle::HandlerContext,
-    event_handler::{EventHandler, HandlerActionExt, Sequentially},
+    event_handler::{EventHandler, HandlerActionExt, SendCommand, Sequentially},
     lanes::{CommandLane, SupplyLane},
     lifecycle, projections, AgentLaneModel,
 };
+use swimos_agent_protocol::encoding::command::CommandMessageDecoder;
 use swimos_agent_protocol::encoding::lane::{RawValueLaneRequestEncoder, RawValueLaneResponseDecoder};
-use swimos_agent_protocol::{LaneRequest, LaneResponse};
+use swimos_agent_protocol::{CommandMessage, LaneRequest, LaneResponse};
+use swimos_api::address::Address;
 use swimos_api::agent::{
     Agent, AgentConfig, AgentContext, DownlinkKind, HttpLaneRequestChannel, LaneConfig, StoreKind, WarpLaneKind,
 };
@@ -71,7 +78,14 @@ impl TestLifecycle {
                 .effect(move || log3.lock().unwrap().push(format!("sup:{}", x)))
                 .followed_by(context.supply(TestAgent::SUP, x))
         });
-        note.followed_by(nested.discard()).followed_by(Sequentially::new(pushes))
+        let count = if n.rem_euclid(11) == 0 { 60 } else { (n / 4).rem_euclid(5) };
+        let sends = (0..count).map(move |i| {
+            let node = format!("/t{}", (n + i).rem_euclid(3));
+            SendCommand::new(Address::text(None, node.as_str(), "in"), n * 100 + i, (n + i).rem_euclid(2) == 0)
+        });
+        note.followed_by(nested.discard())
+            .followed_by(Sequentially::new(pushes))
+            .followed_by(Sequentially::new(sends))
     }
 }
 
@@ -80,13 +94,14 @@ type Io = (ByteWriter, ByteReader);
 /// The harness as the runtime: hands out byte channels for the two lanes.
 struct RigContext {
     cap: usize,
+    cmd_cap: usize,
     lanes: Arc<Mutex<HashMap<String, Io>>>,
     cmd_rx: Arc<Mutex<Vec<ByteReader>>>,
 }
 
 impl AgentContext for RigContext {
     fn command_channel(&self) -> BoxFuture<'static, Result<ByteWriter, DownlinkRuntimeError>> {
-        let (tx, rx) = byte_channel(NonZeroUsize::new(1 << 16).unwrap());
+        let (tx, rx) = byte_channel(NonZeroUsize::new(self.cmd_cap.max(1)).unwrap());
         self.cmd_rx.lock().unwrap().push(rx);
         ready(Ok(tx)).boxed()
     }
@@ -130,6 +145,7 @@ struct LaneEnd {
 struct Rig {
     c: LaneEnd,
     s: LaneEnd,
+    ad: FramedRead<ByteReader, CommandMessageDecoder<String, i32>>,
     log: Log,
 }
 
@@ -191,6 +207,42 @@ impl Rig {
                 }
                 self.settle().await;
             }
+            ["readcmd", n] => {
+                let n: usize = n.parse().unwrap_or(0);
+                let mut got = vec![];
+                for _ in 0..n {
+                    match tokio::time::timeout(Duration::from_millis(5), self.ad.next()).await {
+                        Ok(Some(Ok(CommandMessage::Addressed { target, command, overwrite_permitted }))) => {
+                            let t = target.node.trim_start_matches("/t").to_string();
+                            let ok = target.host.is_none() && target.lane == "in";
+                            got.push(format!(
+                                "{}{}:{}:{}",
+                                if ok { "" } else { "?" },
+                                t,
+                                command,
+                                overwrite_permitted as u8
+                            ));
+                        }
+                        Ok(Some(Ok(_))) => got.push("other-message".into()),
+                        Ok(Some(Err(_))) => {
+                            got.push("decode-error".into());
+                            break;
+                        }
+                        Ok(None) => {
+                            got.push("closed".into());
+                            break;
+                        }
+                        Err(_) => break,
+                    }
+                }
+                self.settle().await;
+                let hist: Vec<String> = std::mem::take(&mut *self.log.lock().unwrap());
+                return format!(
+                    "h={} f=- a={}",
+                    if hist.is_empty() { "-".to_string() } else { hist.join(",") },
+                    if got.is_empty() { "-".to_string() } else { got.join(",") }
+                );
+            }
             _ => return "bad-op".into(),
         }
         let hist: Vec<String> = std::mem::take(&mut *self.log.lock().unwrap());
@@ -201,8 +253,9 @@ impl Rig {
 async fn run_case_async(ops: Vec<String>) -> Vec<(String, String)> {
     let mut results = vec![];
     let first: Vec<&str> = ops.first().map(|s| s.split_whitespace().collect()).unwrap_or_default();
-    let stall = match first.as_slice() {
-        ["new", s] => *s == "1",
+    let (stall, cmd_cap) = match first.as_slice() {
+        ["new", s] => (*s == "1", 1usize << 16),
+        ["new", s, c] => (*s == "1", c.parse::<usize>().unwrap_or(1 << 16)),
         _ => return ops.iter().map(|o| (o.clone(), "bad-op".to_string())).collect(),
     };
     results.push((ops[0].clone(), "ok".to_string()));
@@ -211,7 +264,8 @@ async fn run_case_async(ops: Vec<String>) -> Vec<(String, String)> {
     let agent = AgentModel::new(TestAgent::default, lc.into_lifecycle());
     let lanes = Arc::new(Mutex::new(HashMap::new()));
     let cmd_rx = Arc::new(Mutex::new(vec![]));
-    let context = RigContext { cap: if stall { 4 } else { 1 << 16 }, lanes: lanes.clone(), cmd_rx: cmd_rx.clone() };
+    let context =
+        RigContext { cap: if stall { 4 } else { 1 << 16 }, cmd_cap, lanes: lanes.clone(), cmd_rx: cmd_rx.clone() };
     let config = AgentConfig {
         default_lane_config: Some(LaneConfig {
             input_buffer_size: NonZeroUsize::new(4096).unwrap(),
@@ -245,7 +299,10 @@ async fn run_case_async(ops: Vec<String>) -> Vec<(String, String)> {
         };
         let c = take("cmd");
         let s = take("sup");
-        let mut rig = Rig { c, s, log };
+        // the agent task asks for the ad hoc command channel when it starts running
+        tokio::time::sleep(Duration::from_millis(40)).await;
+        let ad_rx = cmd_rx.lock().unwrap().pop().expect("no ad hoc command channel requested");
+        let mut rig = Rig { c, s, ad: FramedRead::new(ad_rx, Default::default()), log };
         rig.settle().await;
         let mut out = vec![];
         for op in ops.iter().skip(1) {
@@ -291,12 +348,17 @@ const BAD: [&str; 6] = ["zz", "1.5", "@a", "\"7\"", "{1,2}", "99999999999"];
 
 fn gen_case(rng: &mut Rng) -> Vec<String> {
     let stall = rng.chance(3, 5);
-    let mut ops = vec![format!("new {}", stall as u8)];
+    let mut ops = vec![format!("new {} {}", stall as u8, rng.pick(&[32usize, 128, 1024, 1 << 16]))];
     let len = rng.range(2, 40);
     let reads = rng.range(10, 55);
     for _ in 0..len {
         let c = rng.below(100);
         if c < reads {
+            if rng.chance(1, 4) {
+                // the consumer of the ad hoc channel is slow: a few records at a time
+                ops.push(format!("readcmd {}", rng.pick(&[1u32, 2, 3, 7, 40])));
+                continue;
+            }
             ops.push(format!("read {}", if rng.chance(3, 4) { "s" } else { "c" }));
         } else if c < reads + 6 {
             ops.push(format!("sync {} {}", if rng.chance(4, 5) { "s" } else { "c" }, rng.range(1, 4)));
@@ -305,17 +367,21 @@ fn gen_case(rng: &mut Rng) -> Vec<String> {
         } else if c < reads + 13 {
             ops.push(format!("cmd s {}", rng.below(50)));
         } else {
-            ops.push(format!("cmd c {}", rng.below(1000)));
+            // one command in ten makes its handler send a burst of 60 ad hoc commands
+            let v = if rng.chance(1, 10) { 11 * rng.below(90) } else { rng.below(1000) };
+            ops.push(format!("cmd c {}", v));
         }
     }
     for _ in 0..rng.range(0, 12) {
         ops.push(format!("read {}", if rng.chance(3, 4) { "s" } else { "c" }));
     }
+    // quiescence: everything the handlers sent must come out of the ad hoc channel
+    ops.push("readcmd 5000".into());
     ops
 }
 
 fn main() {
-    std::panic::set_hook(Box::new(|_| {}));
+    if std::env::var("SV_PANIC").is_err() { std::panic::set_hook(Box::new(|_| {})); }
     match parse_args() {
         Mode::Gen { seed, cases, out } => {
             let mut t = Trace::create(&out);
